@@ -464,6 +464,16 @@ impl<'a> Gen<'a> {
             let r = self.scalar(scope, k, 0);
             return X::Bin(b(l), *self.rng.pick(&[BinOper::Equal, BinOper::SmallerThan, BinOper::GreaterThanOrEqual]), b(r));
         }
+        if self.cfg.is(Dialect::Sqlite) && self.rng.chance(1, 20) {
+            // SQLite: IS / IS NOT take any operand, a bound NULL or value included
+            let l = self.scalar(scope, K::I, depth - 1);
+            let r = match self.rng.below(3) {
+                0 => X::Val(Value::Int(None)),
+                1 => X::Val(Value::BigInt(None)),
+                _ => self.int_val(),
+            };
+            return X::Bin(b(l), if self.rng.coin() { BinOper::Is } else { BinOper::IsNot }, b(r));
+        }
         if !self.cfg.exec && self.cfg.is(Dialect::Postgres) && self.rng.chance(1, 25) {
             // comparison with ANY / SOME / ALL of an array value (PgFunc)
             let l = self.scalar(scope, K::I, depth - 1);
@@ -798,6 +808,18 @@ impl<'a> Gen<'a> {
                 s.items.push(Item { expr: X::Val(Value::Bytes(Some(Box::new(vec![t, 0, 7, 0xAB, 39])))), alias: Some(a.clone()), window: None });
                 s.out.push(a);
             }
+            if self.cfg.exec && self.rng.chance(1, 12) {
+                // a JSON document among the items (a string literal when inlined, its serialised text when bound)
+                self.tag += 1;
+                let a = self.fresh("o");
+                let doc = match self.rng.below(3) {
+                    0 => serde_json::json!({"q": "it's", "t": self.tag}),
+                    1 => serde_json::json!(["a'b", null, 1.5]),
+                    _ => serde_json::json!("plain ' \" text"),
+                };
+                s.items.push(Item { expr: X::Val(Value::Json(Some(Box::new(doc)))), alias: Some(a.clone()), window: None });
+                s.out.push(a);
+            }
             // candidate ORDER BY keys that are expressions over the scope rather than output names
             for _ in 0..self.rng.below(3) {
                 let e = self.order_key_expr(&scope);
@@ -888,7 +910,10 @@ impl<'a> Gen<'a> {
                 let numeric = [FrameBound::Preceding(1), FrameBound::Following(2)];
                 if self.cfg.numeric_frames && self.rng.chance(1, 6) {
                     // both bounds numeric, on the same side or around the current row (start never after end)
-                    let (s0, e0) = match self.rng.below(4) {
+                    let (s0, e0) = match self.rng.below(6) {
+                        // an offset of zero is an offset like any other
+                        4 => (FrameBound::Preceding(0), FrameBound::Following(0)),
+                        5 => (FrameBound::Preceding(2), FrameBound::Preceding(0)),
                         0 => (FrameBound::Preceding(3), FrameBound::Preceding(1)),
                         1 => (FrameBound::Following(1), FrameBound::Following(3)),
                         2 => (FrameBound::Preceding(2), FrameBound::Following(1)),
@@ -1123,7 +1148,7 @@ impl<'a> Gen<'a> {
             }
             Some(Dialect::Postgres) => {
                 if self.rng.chance(1, 10) && s.joins.is_empty() && matches!(s.from.first(), Some(From_::Table(..))) {
-                    s.sample = Some((self.rng.coin(), 10.0, if self.rng.coin() { Some(1.0) } else { None }));
+                    s.sample = Some((self.rng.coin(), *self.rng.pick(&[10.0, 0.5, 100.0]), *self.rng.pick(&[None, Some(1.0), Some(0.0), Some(0.25)])));
                 }
                 if self.rng.chance(1, 8) && s.unions.is_empty() && s.groups.is_empty() && s.distinct.is_none() {
                     s.lock = Some(Lock {
@@ -1441,7 +1466,9 @@ impl<'a> Gen<'a> {
         }
         for i in 0..ns {
             let (c, k) = settable[(self.rng.below(settable.len()) + i) % settable.len()].clone();
-            if s.sets.iter().any(|(x, _)| *x == c) {
+            // (a column assigned twice is two assignments, in call order: text level, where the engine allows it)
+            let twice_ok = !self.cfg.exec && (self.cfg.is(Dialect::Mysql) || self.cfg.is(Dialect::Sqlite)) && self.rng.chance(1, 4);
+            if s.sets.iter().any(|(x, _)| *x == c) && !twice_ok {
                 continue;
             }
             let e = match &from_rel {
